@@ -1,14 +1,14 @@
 CONSTANTS
  Mods = {"MAIN","A","B"}
- Rules = {"ra","rb","xa"}
- ImpPats = {"*"}
- ExpKinds = {"t:*|r:r*","r:r*|t:*","f:*a|a:ra|r:xa","t:r*|f:*"}
- ReKinds = {"none","*"}
- Types = {"rules","all"}
+ Rules = {"ra","rb","xa","r"}
+ ImpPats = {"*","r*"}
+ ExpKinds = {"t:*|r:r*","r:r*|t:*","f:*a|a:ra|r:xa","t:r*|f:*","r*"}
+ ReKinds = {"none"}
+ Types = {"rules"}
  MaxOps = 3
  MaxDecl = 2
  NoCleanup = FALSE
-INIT InitRe
+INIT InitRe2
 NEXT Next
 CONSTRAINT Bound
 VIEW View
